@@ -447,3 +447,21 @@ Print Assumptions C14_peg_fuel_adequate.
 Print Assumptions C14_parse_from_fuel_gap.
 Print Assumptions C14_parse_total_at_bound.
 Print Assumptions C14_parse_total_partial_gap.
+
+(** ---- Round 9, second part (pegfuel): peg_fuel (Base/Peg.v) raised to 128 + 96 n, above the generic bound of the
+    regenerated grammar (checked by computation: l_peg_fuel_above_bound), so the gap is closed. ---- *)
+Theorem C14_peg_fuel_above_bound : forall s, (peg_bound l_grammar (List.length s) <= peg_fuel s)%nat.
+Proof. exact l_peg_fuel_above_bound. Qed.
+Check C14_peg_fuel_above_bound : forall s, (peg_bound l_grammar (List.length s) <= peg_fuel s)%nat.
+
+Theorem C14_parse_never_fuel : forall start s, parse_from l_grammar start s <> PFuel.
+Proof. exact l_parse_never_fuel. Qed.
+Check C14_parse_never_fuel : forall start s, parse_from l_grammar start s <> PFuel.
+
+Theorem C14_parse_total : forall b, wfp_block b = true -> csf_block b = true -> parse_ok b.
+Proof. exact parse_total. Qed.
+Check C14_parse_total : forall b, wfp_block b = true -> csf_block b = true -> parse_ok b.
+
+Print Assumptions C14_peg_fuel_above_bound.
+Print Assumptions C14_parse_never_fuel.
+Print Assumptions C14_parse_total.
